@@ -35,6 +35,10 @@ for d in sorted(glob.glob(ROOT + "/refactors/*/")):
         for p, rc, lines in ex.map(one, [p for p in claimed if p != own]):
             n += 1
             if rc:
+                rec = meta.get("cross_expect", {}).get(p)
+                if rec:
+                    print("%-8s under %s ALARM%s  (recorded: %s)" % (rid, p, at, rec[:90]))
+                    continue
                 bad += 1
                 print("%-8s under %s ALARM%s" % (rid, p, at))
                 for l in lines[:3]: print("      " + l)
